@@ -521,11 +521,13 @@ class SimReactor(object):
       return False
 
 
-def install():
+def install(t0=None):
   """Install a fresh SimReactor as *the* twisted reactor."""
   import sys
   import twisted.internet
   r = SimReactor()
+  if t0 is not None:
+    r.clock.now = t0          # the daemon is started at a wall-clock instant of the config's choosing
   sys.modules.pop('twisted.internet.reactor', None)
   from twisted.internet.main import installReactor
   installReactor(r)
